@@ -128,3 +128,101 @@ Proof.
     + rewrite upd_same. reflexivity.
     + destruct (s_ready s j) eqn:E; [|reflexivity]. exfalso. apply NIN. eapply RD; eassumption.
 Qed.
+
+(* ------------------------------------------------------------------ *)
+(* 2. which names can be where                                          *)
+(* ------------------------------------------------------------------ *)
+
+Definition working (p : phase) : option name :=
+  match p with WantDl x | HaveDl x | Loaded x | HaveDc x => Some x | _ => None end.
+
+Definition snap_of (j : N) (x : name) : Prop := n_inst x = j /\ n_kind x = KSnap.
+
+Record inv2 (s : state) : Prop := {
+  n_bucket : forall x, In x (s_bucket s) -> n_seq x < s_next s;
+  n_seen : forall j x, alook (s_seen s) j = Some x -> snap_of j x /\ n_seq x < s_next s;
+  n_pend : forall i m j x, s_pend s = Some (i, m) -> alook m j = Some x -> alook (s_seen s) j = Some x;
+  n_notif : forall j x, s_notif s j = Some x -> snap_of j x /\ n_seq x < s_next s;
+  n_phase : forall j d x, s_dl s j = Some d -> working (d_phase d) = Some x -> snap_of j x;
+  n_last : forall j d x, s_dl s j = Some d -> d_last d = Some x -> snap_of j x;
+  n_ready : forall j x, s_ready s j = Some x -> snap_of j x /\ n_ok x = true;
+  n_merge : forall x, s_merge s = Some x -> n_ok x = true;
+  n_deliv : forall x, In x (s_deliv s) -> n_ok x = true;
+  n_cor : forall x, mem x (s_cor s) = true -> n_ok x = false /\ n_kind x = KSnap;
+  n_ign : forall x, mem x (s_ign s) = true -> n_kind x = KBad \/ mem x (s_cor s) = true
+}.
+
+Lemma pend_of_some i m i' m' : pend_of i m = Some (i', m') -> i' = i /\ m' = m.
+Proof. destruct m; cbn; intros H; inversion H; auto. Qed.
+
+Lemma inv2_init c : inv2 (init c).
+Proof. constructor; cbn; intros; try discriminate; try tauto. Qed.
+
+Ltac upd_cases :=
+  repeat match goal with
+  | H : context [upd _ ?j _ ?k] |- _ =>
+      let E := fresh "E" in
+      destruct (N.eq_dec k j) as [E|E];
+      [ try subst k; rewrite ?upd_same in H | try (exfalso; apply E; reflexivity); rewrite (upd_other _ _ _ _ E) in H ]
+  | |- context [upd _ ?j _ ?k] =>
+      let E := fresh "E" in
+      destruct (N.eq_dec k j) as [E|E];
+      [ try subst k; rewrite ?upd_same | try (exfalso; apply E; reflexivity); rewrite (upd_other _ _ _ _ E) ]
+  end.
+
+Ltac inv_some :=
+  repeat match goal with
+  | H : Some _ = Some _ |- _ => inversion H; subst; clear H
+  | H : None = Some _ |- _ => discriminate H
+  | H : Some _ = None |- _ => discriminate H
+  end.
+
+Ltac fin := intros; upd_cases; inv_some; cbn in *; inv_some; eauto.
+
+Lemma inv2_step c s l s' : inv2 s -> step c s l = Some s' -> inv2 s'.
+Proof.
+  intros [NB NS NP NN NPH NL NR NM ND NC NI] H.
+  step_inv H.
+  all: constructor; cbn in *.
+  all: try assumption.
+  all: try solve [fin].
+  all: try solve [intros; upd_cases; inv_some; cbn in *; inv_some; eauto;
+                  match goal with HP : d_phase ?d = _, HD : s_dl _ ?j = Some ?d |- snap_of ?j _ =>
+                    eapply NPH; [exact HD | rewrite HP; reflexivity] end].
+  all: try solve [intros; congruence].
+  all: try match goal with HS : scan _ _ [] = (_, _) |- _ => destruct (scan_spec _ _ _ _ _ HS) as [SA SB] end.
+  (* list ok: seen, pend, ign (twice) *)
+  1,4: intros j x Hx; rewrite SB in Hx; cbn in Hx;
+       destruct (newest (s_bucket s) l j) eqn:EN; [|discriminate]; inversion Hx; subst;
+       apply newest_some in EN; destruct EN as (A & B & C & _); split; [split; assumption | auto].
+  1,3: intros i m j x Hp Hm; apply pend_of_some in Hp; destruct Hp as [_ ->]; exact Hm.
+  1,2: intros x Hx; rewrite SA, mem_add_all in Hx; unfold is_bad_kind in Hx;
+       destruct (mem x (s_cor s)) eqn:E1; [right; reflexivity|];
+       destruct (mem x (s_ign s)) eqn:E2; [destruct (NI x E2); [left; assumption | congruence]|];
+       cbn in Hx; apply andb_true_iff in Hx; destruct Hx as [Hx _]; apply kind_eqb_eq in Hx; left; exact Hx.
+  (* notify: pend *)
+  1-4: intros i m j0 x Hp Hm; apply pend_of_some in Hp; destruct Hp as [_ ->];
+       rewrite alook_adel in Hm; destruct (j0 =? j); [discriminate|]; eapply NP; [reflexivity | exact Hm].
+  (* check -> WantDl *)
+  - intros; upd_cases; inv_some; cbn in *; inv_some; [apply NS; assumption | eauto].
+  (* decode ok, twice *)
+  - intros; upd_cases; inv_some; [|eauto];
+       split; [eapply NPH; [eassumption | match goal with HP : d_phase _ = _ |- _ => rewrite HP end; reflexivity] | assumption].
+  - intros; upd_cases; inv_some; [|eauto];
+       split; [eapply NPH; [eassumption | match goal with HP : d_phase _ = _ |- _ => rewrite HP end; reflexivity] | assumption].
+  (* decode fail *)
+  - intros x0 Hx. rewrite mem_add in Hx. apply orb_true_iff in Hx. destruct Hx as [Hx|Hx]; [|auto].
+    apply name_eqb_eq in Hx; subst. split; [assumption|].
+    eapply NPH; [eassumption | match goal with HP : d_phase _ = _ |- _ => rewrite HP end; reflexivity].
+  - intros x0 Hx. rewrite mem_add. destruct (NI x0 Hx) as [A|A]; [left; exact A | right; rewrite A, orb_true_r; reflexivity].
+  (* next *)
+  - intros; inv_some. apply (NR _ _ Heqo0).
+  - intros x [<-|Hx]; [apply (NR _ _ Heqo0) | auto].
+  (* publish *)
+  - intros x Hx. apply in_app_iff in Hx. destruct Hx as [Hx|[<-|[]]]; [apply NB in Hx|cbn]; lia.
+  - intros j0 x Hx. destruct (NS _ _ Hx). split; [assumption | lia].
+  - intros j0 x Hx. destruct (NN _ _ Hx). split; [assumption | lia].
+  (* delete *)
+  - intros x0 Hx. apply NB. apply mem_In. apply mem_In in Hx. rewrite mem_remove in Hx.
+    apply andb_true_iff in Hx. tauto.
+Qed.
